@@ -1,22 +1,319 @@
-//! C22: status and metrics documents.
-use rvcore::Ctx;
-use serde_json::Value;
-use crate::{mgen, web};
+//! C22: status and metrics documents are always well-formed.
+//!
+//! * `c22b` — the real `JsonBuilder` / `json_str` driven with generated call
+//!   trees and hostile strings (every code point 0..=127 in every position
+//!   class); model: `Json.build`.
+//! * `c22s` — `GET /api/v1/status` through the real dispatcher for metrics
+//!   states with hostile log messages, repository URIs and TAL names; the
+//!   document is parsed back into the builder calls that wrote it and the
+//!   model re-renders them.
+//! * `c22m` — `GET /metrics` likewise; exposition-format parser as oracle,
+//!   the parsed entries are re-rendered by the model.
 
-pub fn probe(ctx: &mut Ctx) {
-    let mut rng = ctx.rng.fork();
-    for i in 0..3 {
-        let state = mgen::gen_state(&mut rng, 2);
-        let w = web::Web::new(state["detailed"].as_bool().unwrap(), state["unsafe"].as_u64().unwrap());
-        mgen::rtr_clients(&state, &w.rtr);
-        w.update(&routinator::slurm::LocalExceptions::empty(), mgen::metrics(&state), state["done"].as_bool().unwrap());
-        let r = w.get("/api/v1/status");
-        let body = String::from_utf8(web::body(&r)).unwrap();
-        let parsed: Result<Value, _> = serde_json::from_str(&body);
-        eprintln!("--- {i} status {} json-ok {:?}", r.status, parsed.as_ref().map(|_| ()).map_err(|e| e.to_string()));
-        if i == 0 { eprintln!("{state}"); eprintln!("{body}"); }
-        let r = w.get("/metrics");
-        let body = String::from_utf8(web::body(&r)).unwrap();
-        if i == 0 { eprintln!("{body}"); }
+use routinator::slurm::LocalExceptions;
+use routinator::utils::json::JsonBuilder;
+use rvcore::{Ctx, Rng};
+use serde_json::{json, Value};
+use crate::jtree::{self, enc, summary};
+use crate::{mgen, prom, web};
+
+//------------ c22b -----------------------------------------------------------
+
+const RAW_OK: &[&str] = &[
+    "0", "-1", "1", "42", "4294967295", "18446744073709551615", "0.000", "1.500",
+    "null", "true", "false", "-0", "1e5", "1E+5", "2.5e-3",
+];
+const RAW_BAD: &[&str] = &["", "inf", "NaN", "01", "1.", ".5", "-", "nul", "\"x\"", "1 2", "+1", "1e", "tru e"];
+
+fn gen_scope(rng: &mut Rng, obj: bool, depth: u64, ill: bool) -> Value {
+    let n = match rng.below(6) { 0 => 0, 1 => 1, 2 => 2, _ => rng.below(5) };
+    let mut calls = Vec::new();
+    for _ in 0..n {
+        // an ill-typed tree makes a wrong-kind call or passes a non-literal as raw now and then
+        let kind_obj = if ill && rng.chance(1, 4) { !obj } else { obj };
+        let raw = |rng: &mut Rng| -> String {
+            if ill && rng.chance(1, 3) { rng.pick(RAW_BAD).to_string() } else { rng.pick(RAW_OK).to_string() }
+        };
+        let nested = depth > 0 && rng.chance(1, 3);
+        let call = if kind_obj {
+            let key = mgen::label(rng, &["a", "key", "vrpsTotal", "ripe"]);
+            if nested {
+                if rng.chance(1, 2) { json!(["mo", key, gen_scope(rng, true, depth - 1, ill)]) }
+                else { json!(["ma", key, gen_scope(rng, false, depth - 1, ill)]) }
+            }
+            else if rng.chance(1, 2) { json!(["ms", key, mgen::hostile(rng)]) }
+            else { json!(["mr", key, raw(rng)]) }
+        }
+        else if nested {
+            if rng.chance(1, 2) { json!(["ao", gen_scope(rng, true, depth - 1, ill)]) }
+            else { json!(["aa", gen_scope(rng, false, depth - 1, ill)]) }
+        }
+        else if rng.chance(1, 2) { json!(["as", mgen::hostile(rng)]) }
+        else { json!(["ar", raw(rng)]) };
+        calls.push(call);
+    }
+    Value::Array(calls)
+}
+
+/// Every code point 0..=127 (and a few beyond) in each position class.
+fn systematic() -> Vec<Value> {
+    let mut res = Vec::new();
+    let mut cps: Vec<u32> = (0..128).collect();
+    cps.extend([0x80, 0xff, 0x2028, 0xd7ff, 0xe000, 0xfffd, 0x1f980, 0x10ffff]);
+    for cp in cps {
+        let ch = char::from_u32(cp).unwrap();
+        let alone = ch.to_string();
+        let mid = format!("a{ch}b");
+        let twice = format!("{ch}{ch}");
+        res.push(json!({"scope": [["ms", alone, "x"], ["ms", "k", alone], ["ms", "m", mid], ["ms", "t", twice]]}));
+        res.push(json!({"scope": [["ma", "list", [["as", alone], ["as", mid]]], ["mo", alone, [["ms", mid, mid]]]]}));
+    }
+    res
+}
+
+fn as_str(v: &Value) -> &str { v.as_str().unwrap_or("") }
+
+fn drive(b: &mut JsonBuilder, calls: &Value) {
+    for call in calls.as_array().into_iter().flatten() {
+        match as_str(&call[0]) {
+            "mo" => b.member_object(as_str(&call[1]), |b| drive(b, &call[2])),
+            "ma" => b.member_array(as_str(&call[1]), |b| drive(b, &call[2])),
+            "ms" => b.member_str(as_str(&call[1]), as_str(&call[2])),
+            "mr" => b.member_raw(as_str(&call[1]), as_str(&call[2])),
+            "ao" => b.array_object(|b| drive(b, &call[1])),
+            "aa" => b.array_array(|b| drive(b, &call[1])),
+            "as" => b.array_str(as_str(&call[1])),
+            "ar" => b.array_raw(as_str(&call[1])),
+            _ => { }
+        }
+    }
+}
+
+fn tokens(calls: &Value, out: &mut Vec<String>) {
+    for call in calls.as_array().into_iter().flatten() {
+        let kind = as_str(&call[0]);
+        out.push(kind.into());
+        match kind {
+            "mo" | "ma" => { out.push(enc(as_str(&call[1]))); tokens(&call[2], out) }
+            "ms" | "mr" => { out.push(enc(as_str(&call[1]))); out.push(enc(as_str(&call[2]))) }
+            "ao" | "aa" => tokens(&call[1], out),
+            _ => out.push(enc(as_str(&call[1]))),
+        }
+    }
+    out.push("e".into());
+}
+
+fn raw_ok(s: &str) -> bool { s == "null" || s == "true" || s == "false" || jtree::is_number(s) }
+
+/// The contract of the builder: member calls in object scopes, array calls in
+/// array scopes, raw values are JSON literals.
+fn well_typed(calls: &Value, obj: bool) -> bool {
+    calls.as_array().into_iter().flatten().all(|call| match as_str(&call[0]) {
+        "mo" => obj && well_typed(&call[2], true),
+        "ma" => obj && well_typed(&call[2], false),
+        "ms" => obj,
+        "mr" => obj && raw_ok(as_str(&call[2])),
+        "ao" => !obj && well_typed(&call[1], true),
+        "aa" => !obj && well_typed(&call[1], false),
+        "as" => !obj,
+        "ar" => !obj && raw_ok(as_str(&call[1])),
+        _ => false,
+    })
+}
+
+fn has_special(calls: &Value) -> bool {
+    calls.to_string().chars().any(|c| c == '\\')
+}
+
+pub fn run_c22b(ctx: &mut Ctx) {
+    ctx.rule = "JsonBuilder call trees (depth <= 3, 0..4 calls per scope) with hostile keys and \
+        values; one tree in eight is ill-typed on purpose (oracle silent, model must still \
+        agree); plus every code point 0..=127 and 8 beyond as key / value / array item, alone, \
+        doubled and embedded; non-trivial = well-typed tree with a character json_str must \
+        escape; distinct by (calls, escaped characters) signature".into();
+    let inputs: Vec<Value> = match ctx.replay_inputs() {
+        Some(inputs) => inputs.into_iter().filter(|v| v.get("scope").is_some()).collect(),
+        None => {
+            let mut res: Vec<Value> = ctx.corpus("C22").into_iter()
+                .filter(|v| v.get("scope").is_some()).collect();
+            res.extend(systematic());
+            let n = ctx.budget(600, 20_000);
+            let mut rng = ctx.rng.fork();
+            for i in 0..n {
+                let ill = i % 8 == 7;
+                res.push(json!({"scope": gen_scope(&mut rng, true, 3, ill)}));
+            }
+            res
+        }
+    };
+    for input in inputs {
+        let scope = &input["scope"];
+        let text = JsonBuilder::build(|b| drive(b, scope));
+        let wt = well_typed(scope, true);
+        let parsed = serde_json::from_str::<Value>(&text);
+        let mut toks = Vec::new();
+        tokens(scope, &mut toks);
+        let op = format!("c22b {}", toks.join(" "));
+        let imp = format!("{} wt={} json={}", summary(&text), wt as u8, parsed.is_ok() as u8);
+        ctx.case(&input, &op, &imp);
+        if wt {
+            if let Err(err) = parsed {
+                ctx.oracle_fail("builder-json-invalid",
+                    &format!("JsonBuilder output for a well-typed call tree does not parse: {err}"),
+                    &input, json!(text));
+            }
+            if has_special(scope) || text.contains("\\u00") {
+                let esc = text.matches('\\').count().min(6);
+                ctx.nontrivial(format!("{}/{}", toks.len().min(40), esc));
+            }
+            ctx.count("well-typed");
+        }
+        else { ctx.count("ill-typed") }
+    }
+}
+
+//------------ c22s / c22m ----------------------------------------------------
+
+fn states(ctx: &mut Ctx, quick: usize, thorough: usize) -> Vec<Value> {
+    match ctx.replay_inputs() {
+        Some(inputs) => inputs.into_iter().filter(|v| v.get("tals").is_some()).collect(),
+        None => {
+            let mut res: Vec<Value> = ctx.corpus("C22").into_iter()
+                .filter(|v| v.get("tals").is_some()).collect();
+            let n = ctx.budget(quick, thorough);
+            let mut rng = ctx.rng.fork();
+            for i in 0..n {
+                res.push(mgen::gen_state(&mut rng, [1, 2, 3, 5][i % 4]));
+            }
+            res
+        }
+    }
+}
+
+/// Sets up the real server state for a metrics state and requests `path`.
+fn fetch(state: &Value, path: &str) -> (u16, String) {
+    let secs = state["now"][0].as_u64().unwrap_or(1_700_000_000) as i64;
+    let nanos = state["now"][1].as_u64().unwrap_or(0) as i64;
+    rvcore::clock::set(secs, nanos);
+    let w = web::Web::new(
+        state["detailed"].as_bool().unwrap_or(false), state["unsafe"].as_u64().unwrap_or(0)
+    );
+    mgen::rtr_clients(state, &w.rtr);
+    rvcore::clock::set(secs + 3, nanos);
+    w.update(&LocalExceptions::empty(), mgen::metrics(state), state["done"].as_bool().unwrap_or(true));
+    rvcore::clock::set(secs + 7, nanos / 2);
+    let reply = w.get(path);
+    (reply.status, String::from_utf8_lossy(&web::body(&reply)).into_owned())
+}
+
+fn hostile_count(state: &Value) -> usize {
+    state.to_string().chars().filter(|c| *c == '\\').count()
+}
+
+pub fn run_c22s(ctx: &mut Ctx) {
+    ctx.rule = "metrics states: 0..5 TALs / repositories / rsync modules / RRDP repositories / \
+        publication point logs / RTR clients, names and log messages plain or hostile (quotes, \
+        backslashes, control characters, non-ASCII), all optional fields both ways; rendered by \
+        GET /api/v1/status through the real dispatcher; non-trivial = a hostile character \
+        reaches the document; distinct by (sizes, hostile characters) signature".into();
+    for state in states(ctx, 300, 10_000) {
+        let (status, text) = fetch(&state, "/api/v1/status");
+        if status != 200 {
+            ctx.oracle_fail("status-not-200", &format!("status {status}"), &state, json!(text));
+            ctx.case_oracle_only(&state, &text);
+            continue
+        }
+        match serde_json::from_str::<Value>(&text) {
+            Err(err) => {
+                ctx.oracle_fail("status-json-invalid",
+                    &format!("the /api/v1/status document does not parse: {err}"),
+                    &state, json!(text));
+                ctx.case_oracle_only(&state, &summary(&text));
+            }
+            Ok(_) => {
+                let op = match jtree::parse(&text) {
+                    Ok(tree @ jtree::JNode::Obj(_)) => {
+                        let mut toks = Vec::new();
+                        jtree::scope_tokens(&tree, &mut toks);
+                        format!("c22b {}", toks.join(" "))
+                    }
+                    _ => "c22b tree-recovery-failed".to_string(),
+                };
+                ctx.case(&state, &op, &format!("{} wt=1 json=1", summary(&text)));
+                let h = hostile_count(&state);
+                if h > 0 {
+                    ctx.nontrivial(format!("{}/{}/{}", text.len() / 2000, h.min(20),
+                        state["tals"].as_array().map(|a| a.len()).unwrap_or(0)));
+                }
+            }
+        }
+    }
+}
+
+fn entry_tokens(entries: &[prom::Entry]) -> Option<String> {
+    let mut out: Vec<String> = Vec::new();
+    let short = |name: &str| name.strip_prefix("routinator_").map(enc);
+    let mut i = 0;
+    while i < entries.len() {
+        match &entries[i] {
+            prom::Entry::Help { name, text } => {
+                // the writer always writes HELP and TYPE together
+                match entries.get(i + 1) {
+                    Some(prom::Entry::Type { name: tname, mtype }) if tname == name => {
+                        if text.contains(['\\', '\n']) { return None }
+                        out.extend(["h".into(), "_".into(), short(name)?, enc(text), "_".into(), enc(mtype)]);
+                        i += 2;
+                        continue
+                    }
+                    _ => return None
+                }
+            }
+            prom::Entry::Type { .. } => return None,
+            prom::Entry::Sample { name, labels: None, value } => {
+                out.extend(["s".into(), "_".into(), short(name)?, enc(value)]);
+            }
+            prom::Entry::Sample { name, labels: Some(labels), value } => {
+                out.extend(["m".into(), "_".into(), short(name)?, enc(value), labels.len().to_string()]);
+                for (k, v) in labels { out.push(enc(k)); out.push(enc(v)) }
+            }
+        }
+        i += 1;
+    }
+    Some(out.join(" "))
+}
+
+pub fn run_c22m(ctx: &mut Ctx) {
+    ctx.rule = "the same metrics states rendered by GET /metrics through the real dispatcher; \
+        exposition-format parser (expfmt rules incl. one HELP/TYPE per metric) as oracle; the \
+        parsed entries are re-rendered by the model; non-trivial = a hostile character in a \
+        TAL name or repository URI; distinct by (sizes, hostile characters) signature".into();
+    for state in states(ctx, 300, 10_000) {
+        let (status, text) = fetch(&state, "/metrics");
+        if status != 200 {
+            ctx.oracle_fail("metrics-not-200", &format!("status {status}"), &state, json!(text));
+            ctx.case_oracle_only(&state, &text);
+            continue
+        }
+        match prom::parse(&text) {
+            Err(err) => {
+                ctx.oracle_fail("metrics-exposition-invalid",
+                    &format!("the /metrics document is not a valid exposition: {err}"),
+                    &state, json!(text));
+                ctx.case_oracle_only(&state, &summary(&text));
+            }
+            Ok(entries) => {
+                let op = match entry_tokens(&entries) {
+                    Some(toks) => format!("c22p {toks}"),
+                    None => "c22p entry-recovery-failed".to_string(),
+                };
+                ctx.case(&state, &op, &format!("{} ok=1 expo=1", summary(&text)));
+                let hostile: usize = state["tals"].as_array().into_iter().flatten()
+                    .map(|t| &t["name"]).chain(state["repos"].as_array().into_iter().flatten().map(|t| &t["uri"]))
+                    .map(|v| v.to_string().chars().filter(|c| *c == '\\').count()).sum();
+                if hostile > 0 {
+                    ctx.nontrivial(format!("{}/{}", entries.len() / 50, hostile.min(20)));
+                }
+            }
+        }
     }
 }
